@@ -1,13 +1,18 @@
 """C18 — hit finding and data reduction keep exactly the samples they should.
 
-Model: lean/StraxModel/Model/Pulse.lean (namespace Strax.Pulse); theorems: Props/C18.lean (lemmas in Lemmas/Pulse.lean).
-Tie: differential correspondence of find_hits, record_links, cut_outside_hits (explicit hits and the find→cut pipeline),
-integrate, zero_out_of_bounds and baseline against the compiled driver (ops `c18.*`).
-Oracle: the property's wording evaluated in plain Python (fractions.Fraction, pulse coordinates) on what the real
-functions returned: maximal runs at/above threshold, hit field formulas, links = adjacent fragments of one pulse in one
-channel, a sample survives iff it lies within [left-le, right+re) of a hit of its own pulse (pulse coordinates, so the
-oracle does not use record_links), metadata untouched, |area - (sum + frac*length)| <= 1/2.
-All baselines / noise levels / thresholds are dyadic, so float32/float64 arithmetic in the real code is exact.
+Model: lean/StraxModel/Model/Pulse.lean (namespace Strax.Pulse); theorems: Props/C18.lean; lemmas:
+Lemmas/Pulse{Hits,Cut,Links,Baseline,Shift}.lean (umbrella Lemmas/Pulse.lean); driver ops `c18.*` (Driver/C18.lean).
+Tie: differential correspondence of find_hits, record_links, cut_outside_hits (explicit hits and the find->cut pipeline),
+integrate, zero_out_of_bounds and baseline against the compiled driver, near time 0 and at nanosecond-epoch times (`epoch/*`).
+Oracle: the property's wording evaluated in plain Python (fractions.Fraction) on what the real functions returned: maximal
+runs at/above threshold, hit field formulas, links = consecutive fragments of one pulse in one channel, a sample survives
+iff it lies within [left-le, right+re) of a hit of its own pulse (pulse coordinates, so the oracle does not use
+record_links), metadata untouched, |area - (sum + frac*length)| <= 1/2, data' = +-(data - int(stored baseline)).
+Oracle domain for links / reduction: `well_formed` (= Lean `wellFormedPulses`); outside it agreement with the model only.
+Quantifier restriction (see ASSUMPTIONS): baselines / noise levels / thresholds only where the code's float32/float64
+arithmetic is exact (dyadic 1/16 grid in the bulk, float32-grid values x power-of-two factors in one component).
+Open finding: C18-nonpositive-hit-height-maxtime (probe component find_hits/probe-nonpositive-hit). cut_baseline is not
+covered (does not compile under the installed numba).
 """
 from __future__ import annotations
 
